@@ -430,6 +430,7 @@ impl<'a, 'tcx> FnCx<'a, 'tcx> {
                     v.push(("callee", self.expr(callee)));
                 }
                 v.push(("args", J::Arr(args.iter().map(|a| self.expr(a)).collect())));
+                v.push(("atys", J::Arr(args.iter().map(|a| J::s(self.typeck.expr_ty_adjusted(a).to_string())).collect())));
             }
             MethodCall(seg, recv, args, _) => {
                 v = self.base("mcall", e.span, ty, id);
@@ -448,6 +449,7 @@ impl<'a, 'tcx> FnCx<'a, 'tcx> {
                 v.push(("recv", self.expr(recv)));
                 v.push(("rty", J::s(self.typeck.expr_ty_adjusted(recv).to_string())));
                 v.push(("args", J::Arr(args.iter().map(|a| self.expr(a)).collect())));
+                v.push(("atys", J::Arr(args.iter().map(|a| J::s(self.typeck.expr_ty_adjusted(a).to_string())).collect())));
             }
             Tup(es) => {
                 v = self.base("tup", e.span, ty, id);
